@@ -2,7 +2,7 @@ from vlib import Harness, NCPU
 
 
 def plan(tier):
-    h = Harness("c11_sync", ["harness/c11_sync.cpp"], flavor="asan", shim=True)
+    h = Harness("c11_sync", ["harness/c11_sync.cpp"], flavor="asan", shim=True, extra_flags=["-fno-access-control"])
     return {
         "harnesses": [h],
         "runs": [(h, ["--tier", tier, "--deadline", "240" if tier == "quick" else "1500"], NCPU)],
